@@ -62,11 +62,14 @@ Definition decode (x : sx) : option (case * obs) :=
   | _ => None
   end.
 
+(* [valid] as a boolean (C08.Props.C08_validb_valid): the driver reports it for every case *)
+Definition validb (c : case) : bool := Nat.leb 1 (bs c) && negb (always_skip c).
+
 Definition entry (x : sx) : sx :=
   match decode x with
   | None => sxS "bad-case"
   | Some (c, io) =>
       let m := run_model c in
       L [ L [L (map B (fst m)); sxBool (snd m)]; L (map sxS (holds c m)); L (map sxS (holds c io));
-          B (netascii_spec (content c)) ]
+          B (netascii_spec (content c)); sxBool (validb c) ]
   end.
